@@ -253,8 +253,9 @@ pub fn record_main(args: &[String]) -> i32 {
             });
         }
         let mut timing = vec![(rng.gen_range(-1000..500) as f64, [500.0, 300.0, 1000.0, 60.0][rng.gen_range(0..4)], true, false)];
-        for _ in 0..rng.gen_range(0..5) {
-            let tt = rng.gen_range(-500..6000) as f64;
+        for _ in 0..rng.gen_range(0..6) {
+            // control points often sit exactly on an object (kiai on/off, velocity changes at a slider)
+            let tt = if !objs.is_empty() && rng.gen_bool(0.6) { objs[rng.gen_range(0..objs.len())].t } else { rng.gen_range(-500..6000) as f64 };
             if rng.gen_bool(0.6) {
                 timing.push((tt, [-50.0, -100.0, -200.0, -25.0, -1000.0][rng.gen_range(0..5)], false, rng.gen()));
             } else {
